@@ -10,7 +10,7 @@ from harness import world as W
 
 CLASSES = {
     "plain": ["a", "Z9", "name"], "space": [" "], "quote": ['"'], "semi": [";"], "eq": ["="], "dash": ["-"], "digit": ["7", "250"],
-    "backslash": ["\\"], "percent": ["%s", "%"], "dot": ["."], "nonascii": ["é", "ж", "名"], "combining": ["é"], "astral": ["\U0001F600"],
+    "backslash": ["\\"], "percent": ["%s", "%"], "dot": [".", "..", "..."], "nonascii": ["é", "ж", "名"], "combining": ["é"], "astral": ["\U0001F600"],
     "semisp": ["; "], "eqsp": ["= "], "spsemi": [" ;"], "spdash": [" -"], "crlfish": ["\\r\\n"],
     "linesep": ["\x0b", "\x0c", "\x1c", "\x1e", "\x85", "\u2028", "\u2029"],   # what str.splitlines() splits at, besides CR and LF
     "mlsx": ["Type=dir;", "Size=1;", "Type=dir; "], "arrow": [" -> ", "a -> b", "old -> new"], "code": ["250 ", "226-"], "dquote": ['""'], "squote": ["'"],
